@@ -114,9 +114,16 @@ func (s *State) clone() *State {
 var heapSorts = map[string]*Sort{}
 var heapNames []string
 
+var hDepth int
+
 func (s *State) H(name string, so *Sort) *Term {
 	if t, ok := s.heap[name]; ok {
 		return t
+	}
+	hDepth++
+	defer func() { hDepth-- }()
+	if hDepth > 5000 {
+		panic(fmt.Sprintf("State.H: cyclic lazy/carry chain resolving %s (state %p, carry %v, lazy %v)", name, s, s.carry != nil, s.lazy != nil))
 	}
 	if _, ok := heapSorts[name]; !ok {
 		heapSorts[name] = so
@@ -295,7 +302,14 @@ func (x *Exec) mergeStates(ins []*State) *State {
 	} else {
 		same = false
 		out.epoch = newEpoch()
-		out.lazy = &lazyMerge{conds: rem, parents: ins}
+		// shallow snapshots: callers may overwrite one of the inputs with the merge result
+		// (*st = *m), which must not make the result its own parent
+		snaps := make([]*State, len(ins))
+		for i, s := range ins {
+			cp := *s
+			snaps[i] = &cp
+		}
+		out.lazy = &lazyMerge{conds: rem, parents: snaps}
 	}
 	// heaps
 	names := map[string]bool{}
